@@ -248,13 +248,18 @@ func checkC11(c c11Case) (ci caseInfo, err error) {
 					binds[a.Name] = a
 				}
 			}
-			for _, e := range ellipsisNames(p.model.Variables()) {
-				if op.C%3 == 1 {
-					fill[e] = (op.C / 3) % 4 // 0 (the ellipsis just goes away) .. 3
-				}
-			}
 			var nm *model.Node
-			if len(ellipsisNames(p.model.Variables())) == 0 || op.C%3 != 1 {
+			if es := ellipsisNames(p.model.Variables()); len(es) > 0 && op.C%3 == 1 {
+				// an expanding call: every ellipsis gets the same count and nothing else is filled, so that the
+				// result is known (reference expansion) and the names it generates can be filled by later steps
+				fill, binds = map[string]interface{}{}, map[string]Assign{}
+				counts := map[string]int{}
+				for _, e := range es {
+					fill[e] = (op.C / 3) % 4 // 0 (the ellipsis just goes away) .. 3
+					counts[e] = (op.C / 3) % 4
+				}
+				nm, _ = model.RefExpand(p.model, counts)
+			} else {
 				nm, _ = substModel(p.model, binds)
 			}
 			if p.item != nil {
@@ -286,10 +291,29 @@ func checkC11(c c11Case) (ci caseInfo, err error) {
 			names := itemVariablesOf(tmplP.model)
 			name := names[op.C%len(names)]
 			var res ast.ItemNode
-			if pn, _ := try(func() { res = tmplP.item.FillVariables(map[string]interface{}{name: valP.item}) }); pn {
+			given := map[string]interface{}{name: valP.item}
+			tracked := true
+			if op.N%3 == 0 && valP != tmplP {
+				// the same map also expands the template's ellipses and names variables that the inserted item brings
+				// along: whatever the call does with those keys, the inserted (shared) item itself stays as it is
+				for _, e := range ellipsisNames(tmplP.model.Variables()) {
+					given[e] = 1 + op.N%2
+					tracked = false
+				}
+				for _, a := range singleFills(valP.model) {
+					if _, taken := given[a.Name]; !taken {
+						given[a.Name] = a.goValue(c.Variant)
+						tracked = false
+					}
+				}
+			}
+			if pn, _ := try(func() { res = tmplP.item.FillVariables(given) }); pn {
 				continue // e.g. the value brings a name the template already has
 			}
-			nm, _ := substModel(tmplP.model, map[string]Assign{name: {Name: name, Kind: "item", Node: valP.model}})
+			var nm *model.Node
+			if tracked {
+				nm, _ = substModel(tmplP.model, map[string]Assign{name: {Name: name, Kind: "item", Node: valP.model}})
+			}
 			derivations++
 			enter(&pooled{item: res, model: nm, from: "FillVariables with a pooled item as value"})
 		case "newmsg", "hsmsmsg":
